@@ -138,6 +138,11 @@ def _run_group(kind, terms, cancel_at, sess, rseed):
                 task.cancel()
         task = sg.start()
         out["sg"], out["ts"], out["ec"] = sg, ts, ec
+        # the slot tables as somebody who awaits the task finds them when
+        # he is woken up (not after the garbage collector has finalised
+        # what the task left behind)
+        task.add_done_callback(lambda _t: out.__setitem__(
+            "slots_at_end", {t.name: list(t.fmmu_used) for t in ts}))
         prev = loop.on_iteration
 
         def on_iter():
@@ -189,6 +194,10 @@ def judge(kind, terms, out, sess):
     for t in out["ts"]:
         if any(x is not None for x in t.fmmu_used):
             return "fmmu", f"{t.name} still holds FMMU slots {t.fmmu_used}"
+    for name, slots in out.get("slots_at_end", {}).items():
+        if any(x is not None for x in slots):
+            return "fmmu", (f"{name} still held FMMU slots {slots} when "
+                            f"the cancelled task was over")
     if kind == "fast":
         ec = out["ec"]
         if ec.sync_groups:
